@@ -199,6 +199,13 @@ fn check_reuse(v: Version, sizes: &[usize]) -> Option<(String, Value)> {
 
 /// Batches of the given sizes on ONE real Responder, each request from its own receiving socket;
 /// every reply must be authentic for its own request (server view of the reference verifier).
+#[cfg(feature = "no_responder_api")]
+fn responder_batches(_v: Version, _sizes: &[usize]) -> Result<Option<(String, String)>, String> {
+    crate::util::RESPONDER_API_SKIPPED.store(true, std::sync::atomic::Ordering::Relaxed);
+    Ok(None)
+}
+
+#[cfg(not(feature = "no_responder_api"))]
 fn responder_batches(v: Version, sizes: &[usize]) -> Result<Option<(String, String)>, String> {
     use roughenough::config::MemoryConfig;
     use roughenough::key::LongTermKey;
@@ -386,12 +393,41 @@ pub fn run(ctx: &Ctx) -> Result<(), String> {
             ctx.violation(&format!("issued-proof-{}", clause), "server", &format!("{}/request-size", class), d);
         }
         ctx.cov("server_request_sizes", json!(sizes.len()));
+        // bursts larger than the batch size: one wake-up of the server builds several trees in a row
+        let plans: Vec<(u8, Vec<usize>)> = vec![(1, vec![2, 3]), (2, vec![3, 4, 5]), (4, vec![5, 8, 9, 12]), (64, vec![65, 72, 128, 129])];
+        let nplans: usize = plans.iter().map(|p| p.1.len()).sum();
+        let r = crate::util::on_named_thread("worker-0", move || -> Result<Vec<(String, String, Value)>, String> {
+            let mut out = vec![];
+            for (bs, bursts) in plans {
+                let mut srv = Srv::new(&SrvCfg { batch_size: bs, ..Default::default() })?;
+                for (bi, k) in bursts.into_iter().enumerate() {
+                    for (mi, mix) in super::c02::mixes(k).into_iter().enumerate() {
+                        let b = super::c02::Burst { mix, size: 1024, srv: false };
+                        let hist = json!({"batch_size": bs, "burst": k, "note": "burst larger than the batch size on a long-running server"});
+                        let res = super::c02::run_burst(&mut srv, &b, ((0x4000 + bs as usize * 1000 + bi * 40 + mi) as u64) << 32, &hist)?;
+                        out.extend(res.violations);
+                        if srv.dead {
+                            break;
+                        }
+                    }
+                    if srv.dead {
+                        break;
+                    }
+                }
+            }
+            Ok(out)
+        })?;
+        evals.fetch_add(nplans as u64, Relaxed);
+        for (clause, class, d) in r {
+            ctx.violation(&format!("issued-proof-{}", clause), "server", &format!("{}/multi-batch-burst", class), d);
+        }
+        ctx.cov("server_multi_batch_bursts", json!(nplans));
     }
 
     let ev = evals.load(Relaxed);
     ctx.cov("evaluations", json!(ev));
     ctx.cov("distinct_nontrivial", json!(nontrivial.load(Relaxed) + reuse_n));
-    ctx.cov("rule", json!("shapes: every leaf count n in 1..=255 x both hash profiles x 5 leaf families (incl. request-sized leaves sharing a 640-byte prefix), every position i<n (completeness: own recompute and independent recompute with the protocol's node width); binding (distinct leaves): every other leaf, every other in-range index, one-bit change per path element (thorough: per path byte), one element appended, first/last element removed; reuse: all ordered pairs of batch sizes from the tier's size set and all triples over {1,2,3,4,5,7,8,9,16,17} on one reused tree vs fresh trees. issued proofs: the real Responder driven with every sequence of batch sizes of length <= 3 over {1..5} (thorough <= 4 over {1..6}) and pairs over {1,2,33,64}, both protocols, each reply authentic for its own request. Non-trivial = a position in a tree with n>=2 (path non-empty) or a reuse history; evaluations counts every root recomputation/comparison."));
+    ctx.cov("rule", json!("shapes: every leaf count n in 1..=255 x both hash profiles x 5 leaf families (incl. request-sized leaves sharing a 640-byte prefix), every position i<n (completeness: own recompute and independent recompute with the protocol's node width); binding (distinct leaves): every other leaf, every other in-range index, one-bit change per path element (thorough: per path byte), one element appended, first/last element removed; reuse: all ordered pairs of batch sizes from the tier's size set and all triples over {1,2,3,4,5,7,8,9,16,17} on one reused tree vs fresh trees. issued proofs: the real Responder driven with every sequence of batch sizes of length <= 3 over {1..5} (thorough <= 4 over {1..6}) and pairs over {1,2,33,64}, both protocols, each reply authentic for its own request; through a long-running in-process Server: bursts of 1/3/5 requests of every request size class, and bursts larger than the batch size (batch_size 1, 2, 4, 64; up to 3 batches in one wake-up; protocol mixes). Non-trivial = a position in a tree with n>=2 (path non-empty) or a reuse history; evaluations counts every root recomputation/comparison."));
     ctx.cov("shapes", json!(shapes));
     ctx.cov("reuse_histories", json!(reuse_n));
     ctx.cov("binding_sizes", json!(binding_ns.len()));
